@@ -343,7 +343,7 @@ func mainCheck(args []string) int {
 	wall := time.Since(start).Seconds()
 	fmt.Printf("property %s tier %s: %d functions, %d obligations, %d discharged, %d known-finding, %d covers (%d vacuous), load %dms vcgen %dms total %.1fs\n",
 		*prop, *tier, len(reports), total, discharged, knownHit, covers, coverBad, loadMs, vcMs, wall)
-	if !*noEvidence && re == nil {
+	if !*noEvidence && re == nil && os.Getenv("VERIF_NO_EVIDENCE") == "" {
 		var tb []string
 		for k := range trusted {
 			tb = append(tb, "assumed contract: "+k)
